@@ -10,9 +10,11 @@
 (* return normally poisons its scenario (nothing after it is judged until  *)
 (* the next Reset).                                                        *)
 (***************************************************************************)
-EXTENDS AidlStore, AidlSymbols, Json, IOUtils
+EXTENDS AidlStore, AidlSymbols, AidlLayout, Json, IOUtils
 
-Rec == ndJsonDeserialize(IOEnv.TRACE)
+\* the trace is read once (at startup) into a TLC register; Rec is then a constant-time lookup
+ASSUME TLCSet(42, ndJsonDeserialize(IOEnv.TRACE))
+Rec == TLCGet(42)
 
 VARIABLES l,        \* position in Rec
           memo12,   \* store value -> digests of the first validation of an equal store (C11, C12)
@@ -79,7 +81,76 @@ TAbnormal(e) ==
 
 TNew(e) == New(e.i) /\ UNCHANGED <<memo12, memo13, poison>>
 
+-----------------------------------------------------------------------------
+(* Parse-stage judgement of an Add event that carries its document as pieces (C02, C03, C04, C18, C20) *)
+
+Keywords == {"package", "import", "interface", "parcelable", "enum", "oneway", "const", "inout", "in", "out", "void",
+             "byte", "short", "int", "long", "float", "double", "boolean", "char", "String", "CharSequence", "List", "Map",
+             "true", "false"}
+ReservedWords == {"break", "case", "catch", "char", "class", "continue", "default", "do", "double", "else", "enum", "false",
+                  "float", "for", "goto", "if", "int", "long", "new", "private", "protected", "public", "return", "short",
+                  "static", "switch", "this", "throw", "true", "try", "void", "volatile", "while"}
+
+\* C03: no stored user-chosen identifier is a keyword or a reserved word
+NamesAreIdents(o) == \A k \in DOMAIN o.idents : o.idents[k] \notin Keywords \cup ReservedWords
+
+\* C20: the 34 terminals as the parser's expectation vectors spell them
+Vocabulary == {"\"(\"", "\")\"", "\",\"", "\"-\"", "\".\"", "\";\"", "\"<\"", "\"=\"", "\">\"", "\"[\"", "\"]\"", "\"{\"", "\"}\"",
+               "ANNOTATION", "BOOLEAN", "CHAR_SEQUENCE", "CONST", "DIRECTION", "ENUM", "FLOAT", "IDENT", "IMPORT", "INTEGER",
+               "INTERFACE", "LIST", "MAP", "ONEWAY", "PACKAGE", "PARCELABLE", "PRIMITIVE", "QUOTED_STRING",
+               "RESERVED_KEYWORD", "STRING", "VOID"}
+
+SyntaxIx(ds) == SortedSeq({k \in DOMAIN ds : ds[k].tag = "syntax"})
+
+\* every token kind of the expectation vector is named in the message, and nothing else is
+ExpectedNamed(d, v) ==
+  LET named == {w \in SeqToSet(d.words) \cup SeqToSet(d.quoted) : w \in Vocabulary}
+  IN named = SeqToSet(v)
+
+C20ok(o, expected) ==
+  LET S == SyntaxIx(o.diags)
+  IN Len(S) = Len(expected) /\ \A k \in DOMAIN S : ExpectedNamed(o.diags[S[k]], expected[k])
+
+JudgeParsed(e) ==
+  LET d == e.pieces
+      o == e.pobs
+      tk == Tokens(d)
+      pr == ParseToks(tk)
+      tab == Tab(d)
+      ps == PosSet(d, tab)
+      bad == IF pr.ok THEN BadCodes(tk, pr.ns) ELSE {}
+      wellformed == pr.ok /\ bad = {}
+      S == SyntaxIx(o.diags)
+      TokSpans == TLCEval({Span(tk, tab, t, t) : t \in DOMAIN tk.pi} \cup {EofRange(tk, tab)})
+      errRange == IF pr.err > Len(tk.pi) THEN EofRange(tk, tab) ELSE Span(tk, tab, pr.err, pr.err)
+  IN /\ J("C03", e, "verdict differs from the grammar",
+          wellformed <=> (o.has_tree /\ o.diags = <<>>))
+     /\ J("C03", e, "malformed document without an Error",
+          wellformed \/ \E k \in DOMAIN o.diags : o.diags[k].sev = "E")
+     /\ J("C03", e, "keyword or reserved word stored as a name", NamesAreIdents(o))
+     /\ J("C02", e, "tree does not mirror the source",
+          pr.ok => (o.has_tree /\ TreeMatches(pr.ns, o.nodes, "parsed")))
+     /\ J("C04", e, "range not well-formed (offset / char boundary / line-column)", AllRangesWF(o.nodes, o.diags, ps))
+     /\ J("C04", e, "name / full range of a construct",
+          (pr.ok /\ o.has_tree /\ Len(o.nodes) = Len(pr.ns)) =>
+             (/\ \A i \in DOMAIN pr.ns : NodeRangesOK(pr.ns[i], o.nodes[i], tk, tab)
+              /\ NestingOK(o.nodes)))
+     /\ J("C04", e, "syntax diagnostic does not cover exactly one token / the end of input",
+          \A k \in DOMAIN S : o.diags[S[k]].r \in TokSpans)
+     /\ J("C04", e, "first syntax diagnostic is not on the first offending token",
+          (~pr.ok /\ S # <<>>) =>
+             \E k \in DOMAIN S : o.diags[S[k]].r = errRange
+                                  /\ \A j \in DOMAIN S : o.diags[S[j]].r[1] >= errRange[1])
+     /\ J("C04", e, "transact-code diagnostic is not on the number",
+          pr.ok => \A k \in DOMAIN o.diags : o.diags[k].tag = "code_overflow" =>
+                       \E i \in bad : o.diags[k].r = Span(tk, tab, pr.ns[i].x.ck, pr.ns[i].x.ck))
+     /\ J("C18", e, "documentation of a construct",
+          (pr.ok /\ o.has_tree /\ Len(o.nodes) = Len(pr.ns)) => DocsOK(pr.ns, o.nodes, d, tk))
+     /\ J("C20", e, "syntax-error message vs. the parser's expectation set", C20ok(o, e.expected))
+
 TAdd(e) ==
+  \* (compared with TRUE so that TLC evaluates the judgement as an expression, where LET definitions are cached)
+  /\ (IF Fld(e, "pieces") /\ Fld(e, "pobs") THEN JudgeParsed(e) ELSE TRUE) = TRUE
   /\ IF Has(e.i) THEN AddContent(e.i, IdOf(e), e.cid) ELSE store' = Put(store, e.i, Put(Empty, IdOf(e), e.cid))
   /\ UNCHANGED <<memo12, memo13, poison>>
 
@@ -99,14 +170,15 @@ TRemove(e) ==
   /\ IF Has(e.i) THEN Remove(e.i, IdOf(e)) ELSE store' = Put(store, e.i, Empty)
   /\ UNCHANGED <<memo12, memo13, poison>>
 
-TValidate(e) ==
-  LET s == IF Has(e.i) THEN store[e.i] ELSE Empty
+VStore(e) == IF Has(e.i) THEN store[e.i] ELSE Empty
+
+JudgeValidate(e) ==
+  LET s == VStore(e)
       full == Fld(e, "obs")
       keys == IF full THEN KeysOf(e.obs) ELSE <<>>
       M13 == IF full /\ ~FreeChoice(e) THEN {k \in DOMAIN e.obs : e.obs[k].id \in DOMAIN s} ELSE {}
       K13(k) == <<e.obs[k].id, s[e.obs[k].id], FactsOf(e.obs[k], keys)>>
-  IN /\ IF Has(e.i) THEN ReadOnly(e.i) ELSE store' = Put(store, e.i, Empty)
-     /\ J("C01", e, "result keys differ from the ids held",
+  IN /\ J("C01", e, "result keys differ from the ids held",
           SeqToSet(e.keys) = DOMAIN s /\ Len(e.keys) = Cardinality(DOMAIN s))
      \* C11: the result, diagnostics in order, is a function of the (id, content) pairs
      /\ J("C11", e, "result (with diagnostic order) differs from the first validation of an equal (id, content) map",
@@ -115,16 +187,29 @@ TValidate(e) ==
      \* one key with two kinds / import one simple name twice (there any pick is allowed; its stability is C11's)
      /\ J("C12", e, "result differs from the first validation of an equal (id, content) map",
           (s \in DOMAIN memo12 /\ ~FreeChoice(e)) => memo12[s].sdig = e.sdig)
-     /\ memo12' = IF s \in DOMAIN memo12 THEN memo12 ELSE Put(memo12, s, [dig |-> e.dig, sdig |-> e.sdig])
      /\ IF full THEN
           /\ \A k \in DOMAIN e.obs : JudgeObs(e, e.obs[k], keys)
           /\ \A k \in M13 : J("C13", e, "result differs from an earlier one with equal content and import facts",
                               K13(k) \in DOMAIN memo13 => memo13[K13(k)] = e.sdig[e.obs[k].id])
-          /\ memo13' = [x \in DOMAIN memo13 \cup {K13(k) : k \in M13} |->
-                           IF x \in DOMAIN memo13 THEN memo13[x]
-                           ELSE e.sdig[e.obs[CHOOSE k \in M13 : K13(k) = x].id]]
-        ELSE UNCHANGED memo13
-     /\ UNCHANGED poison
+        ELSE TRUE
+
+NextMemo13(e) ==
+  LET s == VStore(e)
+      full == Fld(e, "obs")
+      keys == IF full THEN KeysOf(e.obs) ELSE <<>>
+      M13 == IF full /\ ~FreeChoice(e) THEN {k \in DOMAIN e.obs : e.obs[k].id \in DOMAIN s} ELSE {}
+      K13(k) == <<e.obs[k].id, s[e.obs[k].id], FactsOf(e.obs[k], keys)>>
+  IN IF ~full THEN memo13
+     ELSE [x \in DOMAIN memo13 \cup {K13(k) : k \in M13} |->
+              IF x \in DOMAIN memo13 THEN memo13[x]
+              ELSE e.sdig[e.obs[CHOOSE k \in M13 : K13(k) = x].id]]
+
+TValidate(e) ==
+  /\ IF Has(e.i) THEN ReadOnly(e.i) ELSE store' = Put(store, e.i, Empty)
+  /\ JudgeValidate(e) = TRUE
+  /\ memo12' = IF VStore(e) \in DOMAIN memo12 THEN memo12 ELSE Put(memo12, VStore(e), [dig |-> e.dig, sdig |-> e.sdig])
+  /\ memo13' = NextMemo13(e)
+  /\ UNCHANGED poison
 
 \* read-only queries: they never change the store, and their answers are judged with AidlSymbols
 JudgeQuery(e) ==
@@ -155,7 +240,7 @@ JudgeQuery(e) ==
     [] OTHER -> TRUE
 
 TQuery(e) == /\ (IF Has(e.i) THEN ReadOnly(e.i) ELSE store' = Put(store, e.i, Empty))
-             /\ JudgeQuery(e)
+             /\ JudgeQuery(e) = TRUE
              /\ UNCHANGED <<memo12, memo13, poison>>
 
 Queries == {"walk", "filter", "find", "finds", "filters", "lookups", "walktypes", "walkmethods", "walkargs", "key", "roundtrip"}
